@@ -732,3 +732,42 @@ func i32s(ids []int32) []any {
 	}
 	return out
 }
+
+// AddPartitions grows a topic by n partitions (led round-robin).
+func (c *Cluster) AddPartitions(topic string, n int) {
+	c.mu.Lock()
+	defer c.mu.Unlock()
+	t := c.topics[topic]
+	if t == nil {
+		return
+	}
+	ids := c.liveIDs()
+	for i := 0; i < n; i++ {
+		id := int32(len(t.Partitions))
+		l := ids[int(id)%len(ids)]
+		t.Partitions = append(t.Partitions, &Partition{Topic: topic, ID: id, Leader: l, Replicas: []int32{l}, ISR: []int32{l}})
+	}
+	c.notifyLocked()
+}
+
+// GroupMembers lists the member ids of a group.
+func (c *Cluster) GroupMembers(group string) []string {
+	c.mu.Lock()
+	defer c.mu.Unlock()
+	g := c.groups[group]
+	if g == nil {
+		return nil
+	}
+	return g.memberIDs()
+}
+
+// GroupState returns the state and generation of a group.
+func (c *Cluster) GroupState(group string) (string, int32) {
+	c.mu.Lock()
+	defer c.mu.Unlock()
+	g := c.groups[group]
+	if g == nil {
+		return "", 0
+	}
+	return g.State, g.Generation
+}
